@@ -256,6 +256,68 @@ func (bc *boundsChecker) checkIndex(rule string, fn *ssa.Function, a *Arith, in 
 			}
 		}
 	}
+	// a helper that indexes a field of one parameter with another parameter plus a constant (`node.Alternatives[n-1]`,
+	// the caller ranges over len(node.Alternatives)+1): what is missing here is established at every call site, on
+	// the same field of the argument
+	if ld, isLd := X.(*ssa.UnOp); isLd && ld.Op == token.MUL {
+		if fa, isFA := ld.X.(*ssa.FieldAddr); isFA {
+			if xi := paramIdx(fa.X); xi >= 0 {
+				// index = parameter + constant
+				base, off := idx, int64(0)
+				if bo, isBo := idx.(*ssa.BinOp); isBo && (bo.Op == token.ADD || bo.Op == token.SUB) {
+					if k, isK := bo.Y.(*ssa.Const); isK && k.Value != nil && k.Value.Kind() == constant.Int {
+						base, off = bo.X, k.Int64()
+						if bo.Op == token.SUB {
+							off = -off
+						}
+					}
+				}
+				if ii := paramIdx(base); ii >= 0 {
+					if node := m.CG.Nodes[fn]; node != nil {
+						n, okAll := 0, true
+						for _, e := range node.In {
+							if e.Site == nil || e.Site.Common().StaticCallee() != fn || !m.InModule(e.Caller.Func) {
+								okAll = false
+								continue
+							}
+							n++
+							caller := e.Caller.Func
+							args := e.Site.Common().Args
+							// the same field of the argument, as the caller reads it
+							var fld ssa.Value
+							for _, cb := range caller.Blocks {
+								for _, cin := range cb.Instrs {
+									if cl, isL := cin.(*ssa.UnOp); isL && cl.Op == token.MUL {
+										if cfa, isF := cl.X.(*ssa.FieldAddr); isF && cfa.Field == fa.Field && cfa.X == args[xi] {
+											fld = cl
+										}
+									}
+								}
+							}
+							if fld == nil {
+								okAll = false
+								continue
+							}
+							a2 := bc.ar(caller)
+							pt2 := pointOf(e.Site)
+							L2 := bc.lenForm(a2, fld)
+							iv2 := a2.lin(args[ii]).add(linConst(off), 1)
+							if !lowOK && !bc.proveGE(a2, iv2, 0, pt2) {
+								okAll = false
+							}
+							if !highOK && !bc.proveLE(a2, iv2, L2, -1, pt2) {
+								okAll = false
+							}
+						}
+						if okAll && n > 0 {
+							bc.s.OK(rule, key, m.InstrPos(in), "what is not proven here is established at all %d call sites on the same field of the argument", n)
+							return
+						}
+					}
+				}
+			}
+		}
+	}
 	var need []string
 	if !lowOK {
 		need = append(need, "index >= 0")
